@@ -1,8 +1,14 @@
 /-
 C10 — solver standard forms describe the same optimisation problem.
-Property theorems about `Model/Solvers.lean`.
+Property theorems about `Model/Solvers.lean` (helper lemmas are in `Lemmas/Solvers*.lean`).
 -/
-import SageoptModel.Model.Solvers
+import SageoptModel.Lemmas.SolversEcos
+import SageoptModel.Lemmas.SolversDual
+import SageoptModel.Lemmas.SolversSep
+import SageoptModel.Lemmas.SolversMosekP
+import SageoptModel.Lemmas.SolversMosekD
+import SageoptModel.Lemmas.RealCones
+import SageoptModel.Lemmas.SolversDemo
 
 namespace Sageopt.Props.C10
 open Sageopt Sageopt.Solvers
@@ -10,5 +16,299 @@ open Sageopt Sageopt.Solvers
 /-- dualisation maps the cone list to the dual cones, type by type -/
 theorem dualize_cones (n : Nat) (c : Vec Rat) (A : Mat Rat) (b : Vec Rat) (K : List Cone) :
     (dualize n c A b K).Kd = K.map dualCone := rfl
+
+set_option linter.unusedSectionVars false
+set_option linter.unusedVariables false
+
+variable {R : Type} [CommRing R] [LinearOrder R] [IsStrictOrderedRing R]
+
+/-- T1 (the property's first sentence, ECOS part): for EVERY cone sequence over {0,+,S,e} — including
+    adjacent cones of equal type — the ECOS data describe exactly the coniclifts feasible set
+    (and the objective vector is passed through unchanged). -/
+theorem ecos_equiv (S : ConeSem R) (n : Nat) (c : Vec R) (A : Mat R) (b : Vec R) (K : List Cone)
+    (d : EcosData R) (x : Vec R) (hwf : WFSys n A b K) (hx : x.length = n)
+    (hd : ecosApply c A b K = some d) :
+    d.c = c ∧ (FeasBlocks S.P K (slack A b x) ↔ FeasECOS S.P d x) := by
+  unfold ecosApply at hd
+  split at hd
+  · rename_i hall
+    simp only [Option.some.injEq] at hd
+    subst hd
+    refine ⟨rfl, ?_⟩
+    have hsl : (slack A b x).length = totalLen K := by
+      rw [length_slack, hwf.rows, hwf.rhs]; simp [totalLen]
+    rw [ecos_feas_iff S c A b K x hwf.rows hwf.rhs hwf.exp3, feasBlocks_four S K _ hall hsl]
+  · simp at hd
+
+/-- ECOS.apply raises exactly on cone sequences with a type outside {0,+,S,e} -/
+theorem ecos_rejects_iff (c : Vec R) (A : Mat R) (b : Vec R) (K : List Cone) :
+    ecosApply c A b K = none ↔ ∃ co ∈ K, co.type ∉ [CType.zero, .pos, .soc, .exp] := by
+  unfold ecosApply
+  split
+  · rename_i hall
+    simp only [reduceCtorEq, false_iff, not_exists, not_and, not_not]
+    intro co hco
+    have := List.all_eq_true.mp hall co hco
+    revert this
+    cases co.type <;> simp [ecosAllowed]
+  · rename_i hall
+    simp only [true_iff]
+    rw [List.all_eq_true] at hall
+    push Not at hall
+    obtain ⟨co, hco, hna⟩ := hall
+    refine ⟨co, hco, ?_⟩
+    revert hna
+    cases co.type <;> simp [ecosAllowed]
+
+/-- T3: dualisation.  f = -b, G = Aᵀ, h = c, Kd = dual cones; weak duality for every pair of
+    feasible points, given the pairing inequality of each cone with its dual (proved for the concrete
+    cones over ℝ in `exp_pairing`, `soc_pairing`). -/
+theorem weak_duality (S Sd : ConeSem R) (n : Nat) (c : Vec R) (A : Mat R) (b : Vec R) (K : List Cone)
+    (x y : Vec R) (hwf : WFSys n A b K) (hx : x.length = n) (hc : c.length = n)
+    (pair : ∀ co ∈ K, ∀ s y : List R, s.length = co.len → y.length = co.len →
+        S.P co.type s → Sd.P (dualCone co).type y → 0 ≤ dot s y)
+    (hp : FeasBlocks S.P K (slack A b x))
+    (hy : y.length = A.length)
+    (hd : FeasBlocks Sd.P (dualize n c A b K).Kd y)
+    (hG : mulVec (dualize n c A b K).G y = (dualize n c A b K).h) :
+    dot (dualize n c A b K).f y ≤ dot c x := by
+  simp only [dualize] at hd hG ⊢
+  have := weak_duality_core S Sd n A b K x y hwf pair hp hy hd
+  rw [hG] at this
+  rw [dot_neg_left]
+  linarith
+
+/-- zero gap ⇒ both optimal -/
+theorem zero_gap_optimal (S Sd : ConeSem R) (n : Nat) (c : Vec R) (A : Mat R) (b : Vec R) (K : List Cone)
+    (x y : Vec R) (hwf : WFSys n A b K) (hx : x.length = n) (hc : c.length = n)
+    (pair : ∀ co ∈ K, ∀ s y : List R, s.length = co.len → y.length = co.len →
+        S.P co.type s → Sd.P (dualCone co).type y → 0 ≤ dot s y)
+    (hp : FeasBlocks S.P K (slack A b x)) (hy : y.length = A.length)
+    (hd : FeasBlocks Sd.P (dualize n c A b K).Kd y)
+    (hG : mulVec (dualize n c A b K).G y = (dualize n c A b K).h)
+    (hgap : dot (dualize n c A b K).f y = dot c x) :
+    (∀ x' : Vec R, x'.length = n → FeasBlocks S.P K (slack A b x') → dot c x ≤ dot c x') ∧
+    (∀ y' : Vec R, y'.length = A.length → FeasBlocks Sd.P (dualize n c A b K).Kd y' →
+        mulVec (dualize n c A b K).G y' = (dualize n c A b K).h →
+        dot (dualize n c A b K).f y' ≤ dot (dualize n c A b K).f y) := by
+  constructor
+  · intro x' hx' hp'
+    rw [← hgap]
+    exact weak_duality S Sd n c A b K x' y hwf hx' hc pair hp' hy hd hG
+  · intro y' hy' hd' hG'
+    rw [hgap]
+    exact weak_duality S Sd n c A b K x y' hwf hx hc pair hp hy' hd' hG'
+
+/-- T2: slack separation preserves the projection onto the original columns, for every dont_sep;
+    the `col mapping` annotations point at exactly the slack columns, and only allowed cone types
+    remain in the affine part. -/
+theorem separate_equiv (S : ConeSem R) (n : Nat) (A : Mat R) (b : Vec R) (K : List Cone)
+    (dontSep : CType → Bool) (x : Vec R) (hwf : WFSys n A b K) (hx : x.length = n) :
+    let r := separate n A b K dontSep
+    (∀ co ∈ r.K, co.type = .zero ∨ dontSep co.type = true) ∧
+    (FeasBlocks S.P K (slack A b x) ↔
+      ∃ y : Vec R, y.length = (r.slacks.map (·.len)).sum ∧
+        FeasBlocks S.P r.K (slack r.A r.b (x ++ y)) ∧
+        ∀ sc ∈ r.slacks, S.P sc.type (sc.cols.map fun k => (x ++ y).getD k 0)) := by
+  intro r
+  have hsl : (slack A b x).length = totalLen K := by
+    rw [length_slack, hwf.rows, hwf.rhs]; simp [totalLen]
+  have hA : A.length = totalLen K := hwf.rows
+  constructor
+  · intro co hco
+    rcases sepPlan_K_types (sepAllowed dontSep) n K 0 co hco with h | h
+    · exact Or.inl h
+    · simp only [sepAllowed, Bool.or_eq_true, beq_iff_eq] at h
+      exact h
+  · simp only [r, separate_K, separate_slacks, separate_b, separate_A n A b K dontSep hA]
+    constructor
+    · intro hp
+      refine ⟨sepSel (sepAllowed dontSep) K (slack A b x),
+        sepSel_length (sepAllowed dontSep) n K 0 _ hsl, ?_⟩
+      rw [slack_sep n _ A b _ x _ hwf.width hx (sepSel_length (sepAllowed dontSep) n K 0 _ hsl)]
+      have := sepEq_sepSel (sepAllowed dontSep) K 0 (slack A b x) [] rfl hsl
+      exact (sep_iff S (sepAllowed dontSep) n x _ hx K 0 _ hsl).mpr ⟨hp, this⟩
+    · rintro ⟨y, hy, hfb, hsc⟩
+      rw [slack_sep n _ A b _ x y hwf.width hx hy] at hfb
+      exact ((sep_iff S (sepAllowed dontSep) n x y hx K 0 _ hsl).mp ⟨hfb, hsc⟩).1
+
+/-- T4: MOSEK primal form.  `PM` = MOSEK's cones; hypotheses relate them to the coniclifts cones
+    (quad = S in the same order; pexp (x1,x2,x3) = coniclifts e at (x3,x1,x2)). -/
+theorem mosek_primal_equiv (S : ConeSem R) (PM : MosekConeKind → List R → Prop)
+    (hquad : ∀ v, PM .quad v ↔ S.P .soc v)
+    (hpexp : ∀ x1 x2 x3, PM .pexp [x1, x2, x3] ↔ S.P .exp [x3, x1, x2])
+    (n : Nat) (c : Vec R) (A : Mat R) (b : Vec R) (K : List Cone) (x : Vec R)
+    (hwf : WFSys n A b K) (hx : x.length = n) (hc : c.length = n)
+    (hK : ∀ co ∈ K, co.type ∈ [CType.zero, .pos, .soc, .exp])
+    (t : MosekTask R) (ht : mosekPrimalTask (mosekPrimalApply n c A b K) = some t) :
+    (FeasBlocks S.P K (slack A b x) ↔ ∃ y : Vec R, TaskFeas PM t (x ++ y)) ∧
+    (∀ y : Vec R, (x ++ y).length = t.nvars → dot t.obj (x ++ y) = dot c x) ∧ t.maximize = false := by
+  refine ⟨?_, ?_, ?_⟩
+  · rw [(separate_equiv S n A b K (fun t => t == .zero || t == .pos) x hwf hx).2]
+    constructor
+    · rintro ⟨y, hy, hfb, hsc⟩
+      refine ⟨y, (mosek_primal_task_feas S PM hquad hpexp n c A b K hwf hc t ht (x ++ y)).mpr
+        ⟨by rw [List.length_append, hx, hy], hfb, hsc⟩⟩
+    · rintro ⟨y, hy⟩
+      obtain ⟨hl, hfb, hsc⟩ :=
+        (mosek_primal_task_feas S PM hquad hpexp n c A b K hwf hc t ht (x ++ y)).mp hy
+      refine ⟨y, ?_, hfb, hsc⟩
+      rw [List.length_append, hx] at hl
+      omega
+  · intro y _
+    rw [mosekPrimalTask_eq] at ht
+    obtain ⟨cones, hm, rfl⟩ := Option.map_eq_some_iff.mp ht
+    show dot (c ++ List.replicate _ 0) (x ++ y) = dot c x
+    rw [dot_append _ _ _ _ (by rw [hc, hx]), dot_replicate_zero, add_zero]
+  · rw [mosekPrimalTask_eq] at ht
+    obtain ⟨cones, hm, rfl⟩ := Option.map_eq_some_iff.mp ht
+    rfl
+
+/-- T5: MOSEK dual form: the task's feasible points are exactly the regrouped (+, S, de, fr) dual
+    feasible points of `dualize`, with the same objective.
+    `regroup` lists the blocks of y by type in the order +, S, e(→de), 0(→fr). -/
+def regroup (K : List Cone) (y : Vec R) : Vec R :=
+  selectBy (selector K .pos) y ++ selectBy (selector K .soc) y ++ selectBy (selector K .exp) y
+    ++ selectBy (selector K .zero) y
+
+theorem mosek_dual_equiv (Sd : ConeSem R) (PM : MosekConeKind → List R → Prop)
+    (hquad : ∀ v, PM .quad v ↔ Sd.P .soc v)
+    (hdexp : ∀ s1 s2 s3, PM .dexp [s1, s2, s3] ↔ Sd.P .dexp [s3, s1, s2])
+    (n : Nat) (c : Vec R) (A : Mat R) (b : Vec R) (K : List Cone) (y : Vec R)
+    (hwf : WFSys n A b K) (hc : c.length = n) (hy : y.length = A.length)
+    (hK : ∀ co ∈ K, co.type ∈ [CType.zero, .pos, .soc, .exp]) :
+    let D := dualize n c A b K
+    let t := mosekDualTask (mosekDualApply n c A b K)
+    ((FeasBlocks Sd.P D.Kd y ∧ mulVec D.G y = D.h) ↔ TaskFeas PM t (regroup K y)) ∧
+    dot t.obj (regroup K y) = dot D.f y ∧ t.maximize = true := by
+  intro D t
+  have hOK : DualOK K := ⟨hK, hwf.exp3⟩
+  have hr : regroup K y = regroupBy K y := rfl
+  refine ⟨?_, ?_, ?_⟩
+  · rw [hr]
+    exact (mosek_dual_task_feas Sd PM hquad hdexp n c A b K y hwf hc hy hOK).symm
+  · have ht : t.obj = regroupBy K (negVec b) := by
+      simp only [t, mosekDualTask_eq]
+      exact mosekDualApply_f n c A b K hOK
+    rw [ht, hr]
+    exact dot_regroup K hK (negVec b) y (by simp [negVec, hwf.rhs]; rfl) (by rw [hy, hwf.rows]; rfl)
+  · rfl
+
+/-! ### the concrete cones over ℝ: weak duality without a pairing hypothesis -/
+
+/-- weak duality for the actual cones over ℝ (second-order cone, exponential cone and its dual),
+    for every cone sequence over {0,+,S,e}: no pairing hypothesis. -/
+theorem weak_duality_real (n : Nat) (c : Vec ℝ) (A : Mat ℝ) (b : Vec ℝ) (K : List Cone)
+    (x y : Vec ℝ) (hwf : WFSys n A b K) (hx : x.length = n) (hc : c.length = n)
+    (hK : ∀ co ∈ K, co.type ∈ [CType.zero, .pos, .soc, .exp])
+    (hp : FeasBlocks primalSemR.P K (slack A b x))
+    (hy : y.length = A.length)
+    (hd : FeasBlocks dualSemR.P (dualize n c A b K).Kd y)
+    (hG : mulVec (dualize n c A b K).G y = (dualize n c A b K).h) :
+    dot (dualize n c A b K).f y ≤ dot c x :=
+  weak_duality primalSemR dualSemR n c A b K x y hwf hx hc
+    (fun co hco s y _ _ hs hy => real_pairing co (hK co hco) s y hs hy) hp hy hd hG
+
+/-- zero gap ⇒ both optimal, for the actual cones over ℝ -/
+theorem zero_gap_optimal_real (n : Nat) (c : Vec ℝ) (A : Mat ℝ) (b : Vec ℝ) (K : List Cone)
+    (x y : Vec ℝ) (hwf : WFSys n A b K) (hx : x.length = n) (hc : c.length = n)
+    (hK : ∀ co ∈ K, co.type ∈ [CType.zero, .pos, .soc, .exp])
+    (hp : FeasBlocks primalSemR.P K (slack A b x)) (hy : y.length = A.length)
+    (hd : FeasBlocks dualSemR.P (dualize n c A b K).Kd y)
+    (hG : mulVec (dualize n c A b K).G y = (dualize n c A b K).h)
+    (hgap : dot (dualize n c A b K).f y = dot c x) :
+    (∀ x' : Vec ℝ, x'.length = n → FeasBlocks primalSemR.P K (slack A b x') → dot c x ≤ dot c x') ∧
+    (∀ y' : Vec ℝ, y'.length = A.length → FeasBlocks dualSemR.P (dualize n c A b K).Kd y' →
+        mulVec (dualize n c A b K).G y' = (dualize n c A b K).h →
+        dot (dualize n c A b K).f y' ≤ dot (dualize n c A b K).f y) :=
+  zero_gap_optimal primalSemR dualSemR n c A b K x y hwf hx hc
+    (fun co hco s y _ _ hs hy => real_pairing co (hK co hco) s y hs hy) hp hy hd hG hgap
+
+/-! ### non-vacuity: the hypotheses of every theorem hold on concrete non-trivial systems
+(systems 1, 2 over ℚ and system 3 over ℝ are defined in `Lemmas/SolversDemo.lean`) -/
+
+section NonVacuity
+open Sageopt.Solvers.Demo
+
+/-! ECOS -/
+
+example : ecosApply c1 A1 b1 K1 = some d1 := rfl
+
+example (S : ConeSem ℚ) (x : Vec ℚ) (hx : x.length = 2) :
+    FeasBlocks S.P K1 (slack A1 b1 x) ↔ FeasECOS S.P d1 x :=
+  (ecos_equiv S 2 c1 A1 b1 K1 d1 x wf1 hx rfl).2
+
+example : ∃ d, ecosApply c2 A2 b2 K2 = some d ∧ d.l = 1 ∧ d.q = [2, 2] ∧ d.e = 1 ∧
+    d.h = [3, 2, 0, 2, 0, 0, 1, 0] ∧ d.b = [-0] :=
+  ⟨_, rfl, rfl, rfl, rfl, rfl, rfl⟩
+
+example (S : ConeSem ℚ) (x : Vec ℚ) (hx : x.length = 2) :
+    ∃ d, FeasBlocks S.P K2 (slack A2 b2 x) ↔ FeasECOS S.P d x :=
+  ⟨_, (ecos_equiv S 2 c2 A2 b2 K2 _ x wf2 hx rfl).2⟩
+
+example : ecosApply c1 A1 b1 [⟨.soc, 2⟩, ⟨.pow, 3⟩] = none :=
+  (ecos_rejects_iff c1 A1 b1 _).mpr ⟨⟨.pow, 3⟩, by simp, by simp⟩
+
+/-! separate_cone_constraints -/
+
+example : (separate 2 A2 b2 K2 (fun t => t == .pos)).slacks =
+    [⟨.exp, 3, [2, 3, 4]⟩, ⟨.soc, 2, [5, 6]⟩, ⟨.soc, 2, [7, 8]⟩] := rfl
+
+example (S : ConeSem ℚ) (x : Vec ℚ) (hx : x.length = 2) :=
+  separate_equiv S 2 A2 b2 K2 (fun t => t == .pos) x wf2 hx
+
+/-! dualisation: a primal/dual optimal pair with zero gap for system 1 -/
+
+example : dot (dualize 2 c1 A1 b1 K1).f y1 ≤ dot c1 x1 :=
+  weak_duality demoSem demoSem 2 c1 A1 b1 K1 x1 y1 wf1 rfl rfl pair1 primal_feas1 rfl
+    dual_feas1 dual_eq1
+
+/-- `x1 = (-1, -1)` is optimal for system 1 -/
+example : ∀ x' : Vec ℚ, x'.length = 2 → FeasBlocks demoSem.P K1 (slack A1 b1 x') →
+    dot c1 x1 ≤ dot c1 x' :=
+  (zero_gap_optimal demoSem demoSem 2 c1 A1 b1 K1 x1 y1 wf1 rfl rfl pair1 primal_feas1 rfl
+    dual_feas1 dual_eq1 gap1).1
+
+/-! MOSEK, primal form -/
+
+example : ∃ t, mosekPrimalTask (mosekPrimalApply 2 c2 A2 b2 K2) = some t ∧ t.nvars = 9 ∧
+    t.cones = [(.pexp, [3, 4, 2]), (.quad, [5, 6]), (.quad, [7, 8])] :=
+  ⟨_, rfl, rfl, rfl⟩
+
+example (S : ConeSem ℚ) (x : Vec ℚ) (hx : x.length = 2) :
+    ∃ t, (FeasBlocks S.P K2 (slack A2 b2 x) ↔ ∃ y : Vec ℚ, TaskFeas (pmOf S.P) t (x ++ y)) :=
+  ⟨_, (mosek_primal_equiv S (pmOf S.P) (fun _ => Iff.rfl) (fun _ _ _ => Iff.rfl) 2 c2 A2 b2 K2 x
+    wf2 hx rfl (by decide) _ rfl).1⟩
+
+/-! MOSEK, dual form -/
+
+example : regroup K2 ([10, 11, 12, 20, 21, 30, 40, 41, 50] : Vec ℚ)
+    = [50, 20, 21, 40, 41, 10, 11, 12, 30] := rfl
+
+example : (mosekDualTask (mosekDualApply 2 c2 A2 b2 K2)).cones
+    = [(.quad, [1, 2]), (.quad, [3, 4]), (.dexp, [6, 7, 5])] := rfl
+
+example (Sd : ConeSem ℚ) (y : Vec ℚ) (hy : y.length = 9) :=
+  mosek_dual_equiv Sd (pmOf Sd.P) (fun _ => Iff.rfl) (fun _ _ _ => Iff.rfl) 2 c2 A2 b2 K2 y
+    wf2 rfl hy (by decide)
+
+/-- the optimal multiplier of system 1 is feasible for the MOSEK dual task -/
+example : TaskFeas (pmOf demoSem.P) (mosekDualTask (mosekDualApply 2 c1 A1 b1 K1)) (regroup K1 y1) :=
+  (mosek_dual_equiv demoSem (pmOf demoSem.P) (fun _ => Iff.rfl) (fun _ _ _ => Iff.rfl) 2 c1 A1 b1
+    K1 y1 wf1 rfl rfl (by decide)).1.mp ⟨dual_feas1, dual_eq1⟩
+
+/-! the real cones: `min -x s.t. (x, 1, 1) ∈ K_exp` (i.e. `exp x ≤ 1`), optimal at `x = 0` with the
+    dual certificate `(-1, 1, -1) ∈ K_exp*` -/
+
+/-- `x = 0` minimises `-x` subject to `exp x ≤ 1` -/
+example : ∀ x' : Vec ℝ, x'.length = 1 → FeasBlocks primalSemR.P K3 (slack A3 b3 x') →
+    dot c3 x3 ≤ dot c3 x' :=
+  (zero_gap_optimal_real 1 c3 A3 b3 K3 x3 y3 wf3 rfl rfl (by decide) primal_feas3 rfl
+    dual_feas3 dual_eq3 (by simp [dualize, negVec, dot, b3, y3, c3, x3])).1
+
+example : dot (dualize 1 c3 A3 b3 K3).f y3 ≤ dot c3 x3 :=
+  weak_duality_real 1 c3 A3 b3 K3 x3 y3 wf3 rfl rfl (by decide) primal_feas3 rfl dual_feas3 dual_eq3
+
+end NonVacuity
 
 end Sageopt.Props.C10
